@@ -465,3 +465,31 @@ Proof.
   intros Hv Hs. destruct (valid_redirect_parsed uri cfg Hv) as [u [Hp [_ [Hh _]]]].
   exact (accepted_authority_no_backslash uri u sch ui h port rest Hp Hh Hs).
 Qed.
+
+(* ================================================================== the Location of the code redirect *)
+(* ProxyOAuthRedirect writes URL.String() of the re-parsed redirect with the configured scheme.
+   Up to the end of the authority that text is [authority_string (c_scheme c) u]; what follows is a
+   path, query or fragment ([tail]). Every RFC reading of the emitted text names an in-domain host. *)
+Theorem code_location_in_domain c now ep q src :
+  serve c now ep q = ORedirect src WithCode ->
+  forallb byte_ok src = true -> (c_scheme c = [] \/ scheme_ok (c_scheme c)) ->
+  exists u, go_parse src = Some u /\
+    forall tail s' ui' h' p' r', rest_ok tail ->
+      rfc_split (authority_string (c_scheme c) u ++ tail) s' ui' h' p' r' ->
+      in_domain (rfc_hostname h') (c_domains c).
+Proof.
+  intros H Hb Hsch. destruct (code_gated _ _ _ _ _ H) as [_ [_ [_ [_ [Hv _]]]]].
+  destruct (valid_redirect_parsed src (c_domains c) Hv) as [u [Hp [_ [Hh Hd]]]].
+  exists u. split; [exact Hp|]. intros tail s' ui' h' p' r' Ht Hs.
+  destruct (go_parse_bytes src u Hp Hb) as [B1 B2].
+  rewrite (string_authority_host (c_scheme c) u tail s' ui' h' p' r' Hsch B1 B2 Ht Hs). exact Hd.
+Qed.
+
+(* and that text is all-ASCII, so http.Redirect's hexEscapeNonASCII leaves it alone *)
+Theorem code_location_prefix c src u :
+  go_parse src = Some u -> forallb byte_ok src = true -> forallb ascii (c_scheme c) = true ->
+  location_prefix c (ORedirect src WithCode) = Some (authority_string (c_scheme c) u).
+Proof.
+  intros Hp Hb Hs. unfold location_prefix. rewrite Hp. f_equal. apply hex_escape_id.
+  destruct (go_parse_bytes src u Hp Hb) as [B1 B2]. apply authority_string_ascii; assumption.
+Qed.
